@@ -65,8 +65,11 @@ class FakeChannel:
 class FakeWebPush:
     def __init__(self):
         self.sent = []
+        self.latency = 0.0      # round trip to the push service (a subscriber exists and the service is slow)
 
     async def publish_message(self, notification, topic, process_unit):
+        if self.latency:
+            await asyncio.sleep(self.latency)
         self.sent.append((str(topic), process_unit.engine_id))
 
     async def publish_test_message(self, user_id):
@@ -205,7 +208,12 @@ class SimA(Simulator):
             idle_reconnect()
             if rng.random() < 0.5:
                 ops.append(["stop", "E1", n_runs])             # the stop notification of the last run is sent again
-        return {"cfg": {"interval": interval}, "ops": ops}
+        cfg = {"interval": interval}
+        if faults and rng.random() < 0.3:
+            # a web push subscriber exists and the push service answers slowly: whatever awaits the notification is
+            # suspended while the engine is already back
+            cfg["push_latency"] = rng.choice([0.02, 0.12, 0.3, 2.0])
+        return {"cfg": cfg, "ops": ops}
 
     def _gen_errorlog(self, rng: random.Random, tier: str) -> dict:
         ops: list[list] = [["register", "E1"], ["connect", "E1"], ["uodinfo", "E1", 1.0], ["start", "E1", 1]]
@@ -433,6 +441,9 @@ class SimA(Simulator):
                 await self._deliver(w, h)
             return r
 
+        bg: list = []
+        w.webpush.latency = cfg.get("push_latency", 0.0)
+
         async def closed(ch, step):
             # the endpoint reports a closed websocket to the dispatcher; an exception there is the dispatcher's, not the
             # harness's
@@ -501,7 +512,10 @@ class SimA(Simulator):
                 ch = w.live_channels.pop(e, None)
                 if ch is not None:
                     ch.closed = True
-                    await closed(ch, step)
+                    # the endpoint reports the closed socket from the websocket's own task: the engine's next
+                    # registration (a REST request) and its new websocket do not wait for that report to be handled
+                    bg.append(asyncio.ensure_future(closed(ch, step)))
+                    await asyncio.sleep(0)
                     res.fault("engine_disconnect")
                     # the unit's engine data is dropped with its active users: a registration made before is no longer
                     # *required* to show (the statement only says when a user may be listed)
@@ -589,6 +603,10 @@ class SimA(Simulator):
             if k in ("tags",) and op[2] is not None and eid(op[1]) is not None:
                 ed = w.aggregator.get_registered_engine_data(eid(op[1]))
                 rid = f"run-{op[1]}-{op[2]}"
+                if ed is None and op[1] in w.live_channels and any(o[0] == "disconnect" for o in plan["ops"][:step]):
+                    res.add("C28", "C28.reconnected_engine_has_no_data", "engine_data", step,
+                            f"{op[1]} re-registered and its websocket was accepted, but the aggregator holds no engine data "
+                            f"for id {eid(op[1])!r}: its messages for run {rid} are answered 'not registered'")
                 if active_run.get(op[1]) == rid and ed is not None:
                     if not ed.has_run() or ed.run_data.run_id != rid:
                         kind = "C28.crash_restart_loses_run" if rid in crash_restart_during else "C28.run_not_continued"
@@ -614,6 +632,8 @@ class SimA(Simulator):
                       sum(1 for d in w.aggregator._engine_data_map.values() if d.has_run()))
         if held is not None:
             await self._deliver(w, held)
+        if bg:
+            await asyncio.gather(*bg, return_exceptions=True)
         await asyncio.sleep(0.5)
         self._check_db(w, plan, res, run_started_delivered, run_stopped_delivered, crash_restart_during)
         res.fingerprint = stable_hash(fp)
